@@ -44,7 +44,7 @@ func main() {
 		renderChild()
 		return
 	}
-	Main("C10", checkC10, func(c *Ctx) (string, []byte, error) { return effsum.Gen(c.Repo) }, stateGen)
+	Main("C10", checkC10, stateGen, func(c *Ctx) (string, []byte, error) { return effsum.Gen(c.Repo) })
 }
 
 // ---------------------------------------------------------------------------- child
